@@ -134,9 +134,12 @@ Iterate(e) ==
   /\ ~undef /\ has[e] /\ Live(e)
   /\ \E b \in Iter1Set(alg[Own(e)]) : IterTo(e, b, "iterate")
 
-IterateN(e, k) ==                           \* k >= 1
+IterateN(e, k) ==                           \* k >= 0 ; zero iterations report the current status
   /\ ~undef /\ has[e] /\ Live(e)
-  /\ \E b \in IterNSet(alg[Own(e)], k) : IterTo(e, b, "iterate_n")
+  /\ IF k = 0          \* nothing is iterated: the object reports the status it last saw
+     THEN /\ UNCHANGED core
+          /\ obs' = [call |-> "iterate_n", obj |-> e, ret |-> unf[e], ns |-> Len(alg[Own(e)].recT), t |-> alg[Own(e)].t]
+     ELSE \E b \in IterNSet(alg[Own(e)], k) : IterTo(e, b, "iterate_n")
 
 Run(e, J) ==                                \* wall-clock bounded: some number j >= 1 of iterations
   /\ ~undef /\ has[e] /\ Live(e)
@@ -278,7 +281,7 @@ StickyComplete == [][StickyCompleteA]_vars
 IdleAfterDoneA ==
   obs'.call \in IterCalls =>
        LET s == Own(obs'.obj)
-       IN  (alg[s].live /\ alg[s].complete) => alg'[s] = [alg[s] EXCEPT !.done = FALSE]
+       IN  (alg[s].live /\ alg[s].complete) => (alg'[s] = [alg[s] EXCEPT !.done = FALSE] \/ alg'[s] = alg[s])
 IdleAfterDone == [][IdleAfterDoneA]_vars
 
 (* Only iterations advance the simulation; observers are read-only;          *)
